@@ -16,6 +16,7 @@ package crdt
 
 import (
 	"bytes"
+	"errors"
 	"reflect"
 	"sync"
 
@@ -160,6 +161,9 @@ func (s *Volatile) GetBinaryCodec() binary.Codec {
 
 // ------------------------------------------------------------------------------------
 
+// ErrInvalidValue is returned when a decoded value does not contain the time pair.
+var errInvalidValue = errors.New("crdt: the value is not valid")
+
 type codecVolatile struct{}
 
 // Encode encodes a value into the encoder.
@@ -187,12 +191,17 @@ func (c *codecVolatile) DecodeTo(d *binary.Decoder, rv reflect.Value) (err error
 	for i := 0; i < int(size); i++ {
 		k, err := d.ReadSlice()
 		if err != nil {
-			return nil
+			return err
 		}
 
 		v, err := d.ReadSlice()
 		if err != nil {
-			return nil
+			return err
+		}
+
+		// Each value must at least have the add and remove times
+		if len(v) < 16 {
+			return errInvalidValue
 		}
 
 		out.data[binary.ToString(&k)] = decodeValue(binary.ToString(&v))
